@@ -134,6 +134,9 @@ def q_rules(P, E):
             # the predicate must return false (stop waiting) on the aborted edge
             if ab:
                 _check_predicate_polarity(P, r, pb)
+            # .. and otherwise answer exactly `the queue is empty` (keep waiting iff there is nothing to pop)
+            if emp:
+                _check_predicate_emptiness(P, r, pb, {x.bb for x in emp})
         else:
             fwd = b.reachable_from(c.bb)
             cyc = {x for x in fwd if c.bb in b.reachable_from(x)}
@@ -413,3 +416,66 @@ def _check_predicate_polarity(P, r, pb):
         r.violate(("Q3", pb.nid, "predicate keeps waiting when aborted"),
                   "with the abort flag set the wait predicate can return %s (must be false on every path): the worker never "
                   "leaves the wait" % [x for x in rets if x != 0], body=pb)
+
+
+def _empty_test(pb, op, emp_bbs, depth=0):
+    """what a boolean operand of the wait predicate says about the queue: "empty" (true iff it is empty), "nonempty", "other" (a
+    length test that is neither), None (not a test of the queue)"""
+    if depth > 6 or not isinstance(op, dict) or op.get("k") not in ("copy", "move"):
+        return None
+    out = None
+    for t in pb.operand_prov(op):
+        if t[0] == "ret" and t[1] in emp_bbs and not t[2]:
+            c = pb.call_at(t[1])
+            if c is not None and c.path.endswith("::is_empty"):
+                out = "empty"
+        elif t[0] == "val":
+            rv = pb.blocks[t[1][0]]["stmts"][t[1][1]]["rv"]
+            if rv.get("k") == "binop" and rv.get("op") in ("Eq", "Ne", "Gt", "Le", "Lt", "Ge"):
+                a_, b_ = rv["a"], rv["b"]
+                is_len = lambda o: o.get("k") in ("copy", "move") and any(x[0] == "ret" and x[1] in emp_bbs for x in pb.operand_prov(o))
+                cst = lambda o: o.get("int") if o.get("k") == "const" and "int" in o else None
+                if is_len(a_) and cst(b_) is not None:
+                    f = lambda n, c=int(cst(b_)), o=rv["op"]: {"Eq": n == c, "Ne": n != c, "Gt": n > c, "Le": n <= c, "Lt": n < c, "Ge": n >= c}[o]
+                elif is_len(b_) and cst(a_) is not None:
+                    f = lambda n, c=int(cst(a_)), o=rv["op"]: {"Eq": c == n, "Ne": c != n, "Gt": c > n, "Le": c <= n, "Lt": c < n, "Ge": c >= n}[o]
+                else:
+                    continue
+                tt = [f(n) for n in range(0, 5)]
+                out = "empty" if tt == [True, False, False, False, False] else "nonempty" if tt == [False, True, True, True, True] else "other"
+            elif rv.get("k") == "unop" and rv.get("op") == "Not":
+                inner = _empty_test(pb, rv.get("a"), emp_bbs, depth + 1)
+                out = {"empty": "nonempty", "nonempty": "empty"}.get(inner, inner)
+    return out
+
+
+def _check_predicate_emptiness(P, r, pb, emp_bbs):
+    """every value the predicate can return is `false` (the aborted / short-circuit edge) or says exactly `the queue is empty`"""
+    verdicts = []
+    for i in sorted(pb.reach):
+        for s_ in pb.blocks[i]["stmts"]:
+            if s_["k"] == "assign" and s_["lhs"] == [0]:
+                rv = s_["rv"]
+                if rv["k"] == "use" and rv["op"]["k"] == "const":
+                    verdicts.append("const " + str(rv["op"].get("s")))
+                elif rv["k"] == "use":
+                    verdicts.append(_empty_test(pb, rv["op"], emp_bbs))
+                elif rv["k"] == "unop" and rv.get("op") == "Not":
+                    inner = _empty_test(pb, rv.get("a"), emp_bbs)
+                    verdicts.append({"empty": "nonempty", "nonempty": "empty"}.get(inner, inner))
+                elif rv["k"] == "binop":
+                    tmp = {"k": "copy", "p": [0]}
+                    verdicts.append(_empty_test(pb, tmp, emp_bbs))
+                else:
+                    verdicts.append(None)
+    for c in pb.calls:
+        if c.dest == [0]:
+            verdicts.append("empty" if c.path.endswith("::is_empty") and c.bb in emp_bbs else None)
+    r.instance(("Q3", pb.nid, "emptiness"), bool(verdicts) and None not in verdicts, "the predicate returns %s" % verdicts)
+    for v_ in verdicts:
+        if v_ in ("nonempty", "other", "const true"):
+            r.violate(("Q3", pb.nid, "predicate does not wait for `queue empty`"),
+                      "the wait predicate can return %s: the worker must keep waiting exactly while the queue is empty and abort is not set "
+                      "(otherwise it pops `no task` and leaves its loop, or sleeps on work that is there)"
+                      % {"nonempty": "`queue is NOT empty`", "other": "a length test that is not `queue is empty`", "const true": "`true` unconditionally"}[v_], body=pb)
+            break
